@@ -630,10 +630,13 @@ def explore(tier, seed, nproc, budget):
             "not_covered": ["histories longer than the depth bound unless the search closed", "type-2 datasets", "random displacements / MLP state"]}
     capped = False
     levels = {}
+    import time as _time
+
+    t_start = _time.time()
     for system in XTAL:
         levels[system] = []
         for root, depth in ROOTS[tier][system]:
-            trans, stats = bfs.bfs(_Step(system), "root", OPS, depth, nproc, _winit, (seed,), budget_s=budget / 4, chunk=2, root=root)
+            trans, stats = bfs.bfs(_Step(system), "root", OPS, depth, nproc, _winit, (seed,), budget_s=max(30.0, budget - (_time.time() - t_start)), chunk=2, root=root)
             stats["root"] = root
             stats["depth"] = depth
             levels[system].append(stats)
